@@ -6,7 +6,7 @@ CONSTANTS
   Coefs <- CoefOne
   MaxTerms = 1
   JWs <- BoolBoth
-  PDs <- PDAll
+  PDs <- PDSome
   PrintCases = TRUE
   InverseScalar = FALSE
 INVARIANT Denotes
